@@ -13,6 +13,7 @@ size_t gk;
 dig_t g_p[RLC_FP_DIGS];
 #endif
 dig_t g_dig0;
+dig_t g_ak, g_bk;
 unsigned char g_byte0;
 dig_t g_cy[VC_MAXN + 2];
 
